@@ -286,6 +286,24 @@ def appendOk (ld : String → Val) : Node → Val → Bool
       | x => (adapt ld ty x).isSome
   | _, _ => false
 
+/-! ## meta keys (`Namespace.get_sorted_keys`, `is_meta_key`)
+
+`check_values` iterates `cfg.get_sorted_keys()`, whose default filter drops every key whose LEAF name is in
+`meta_keys = {"__path__", "__default_config__", "__orig__"}` (`is_meta_key`: `leaf_key in meta_keys` — membership
+in that set, NOT the spelling `__...__`).  The three names are the library's own bookkeeping entries, but nothing
+distinguishes one written by the user: such an entry with a plain value is invisible to validation at every level
+(open finding C06-meta-key-foreign).  Any other name, `__comment__` and `__pth__` included, is a key like any other. -/
+
+def metaKeys : List String := ["__path__", "__default_config__", "__orig__"]
+
+def isMeta (k : String) : Bool := metaKeys.contains k
+
+/-- an entry `get_sorted_keys` filters out: a meta key holding a value that is not a mapping (a mapping is listed by the
+    dotted keys of its leaves, whose leaf names decide) -/
+def metaLeaf (k : String) : Val → Bool
+  | .dict _ => false
+  | _ => isMeta k
+
 /-! ## `check_required` -/
 
 def isNullOrMissing : Option Val → Bool
@@ -408,6 +426,8 @@ def walk (ld : String → Val) (pre : Path) (cut : Nat) (fs : Fields) (sel : Opt
         | .ok () => walk ld pre cut fs sel r
       else walk ld pre cut fs sel r            -- section of a non-selected subcommand: removed, never validated
     | .none =>
+      if metaLeaf k v then walk ld pre cut fs sel r       -- filtered out of `get_sorted_keys`: never looked at
+      else
       match appendSlot fs k with
       | some (b, n) =>
         -- `k+` of a list-typed argument `k`: consumed by `apply_appends`, the elements are checked
@@ -426,6 +446,7 @@ def chkCls (ld : String → Val) (pre : Path) (cfs : Fields) : KV → R
       | .error e => .error e
       | .ok () => chkCls ld pre cfs r
     else if k = "dict_kwargs" then chkCls ld pre cfs r      -- not looked into
+    else if k = "__path__" then chkCls ld pre cfs r         -- `is_subclass_spec` allows exactly this fourth key
     else .error (.unknown (pre ++ [.key k]) pre.length)
 def chkItems (ld : String → Val) (pre : Path) (i : Nat) (it : Node) : List Val → R
   | [] => .ok ()
